@@ -16,7 +16,10 @@ class NumberType(Type):
             if other is None:
                 return self.value, None
             elif other.dtype is None:
+                # two literals are compared as floats in the unit of the right one
+                self.convert(other.unit)
                 self.value = float(self.value)
+                other.value = float(other.value)
             else:
                 if other.dtype in [int,float]:
                     self.convert(other.unit)
